@@ -24,7 +24,7 @@ from mc.faultfs import Crash, FaultFS, snapshot
 
 ID = "C19"
 LEVEL = "fault_enumeration"
-TECHNIQUE = "exhaustive crash-point enumeration of the cache write path (every FS event and every byte offset) with recovery runs; per-key state products for parallel reruns"
+TECHNIQUE = "exhaustive crash-point enumeration of the cache write path (every FS event and every byte offset) with recovery runs; per-key state products for parallel reruns; all operation histories up to depth 4/5 on one cache directory against a key->value reference model"
 LEVEL_TEXT = (
     "For 5 key sets (ints, strings, a float, tuple keys as produced by MultiIndex rows, a str-colliding pair) and 3 "
     "result kinds (dict, DataFrame, Simulation through scan.time_course) a clean run under the file-system shim yields "
@@ -32,11 +32,16 @@ LEVEL_TEXT = (
     "every key position; after each crash a rerun must return the uncached results for every key and a third run must "
     "return them without calling the function. Per-key crash states {absent, opened-empty, mid-write, complete-not-"
     "published, published} are combined (all products for 3 keys) and rerun in parallel with 2 workers; 3 plans are "
-    "replayed with a real SIGKILL and the directory must equal the simulated one."
+    "replayed with a real SIGKILL and the directory must equal the simulated one. Transparency over time: every "
+    "history of up to 4 (quick) / 5 (thorough) operations {run, run of another computation under the same keys, run "
+    "on a subset of keys, wipe the directory, delete one file, edit the returned objects in place} on one directory in "
+    "one process is executed; every run must return what a plain key->value map would (stored value for stored keys, "
+    "fresh value otherwise) and compute exactly the missing keys."
 )
 LEVEL_NOTE = "fault model: process kill (everything handed to the OS persists, nothing after the kill happens); power-loss reordering of unsynced writes is out of scope; trusted: the shim's interception of io.open/os.* (validated against real SIGKILL runs)"
 RULE = (
-    "case = (key set, result kind, crash plan) or (key-state product, parallel rerun) or (real-kill plan); all plans "
+    "case = (key set, result kind, crash plan) or (key-state product, parallel rerun) or (real-kill plan) or (result "
+    "kind, operation history); all plans "
     "derived from the logged event list are enumerated. Non-trivial = the crash leaves at least one file or directory "
     "behind (crash after the first event); distinct = distinct (key set, kind, plan)."
 )
@@ -102,12 +107,16 @@ def _tc_worker(model, time_points, y0, integrator):
     return _time_course_worker(model, time_points, y0=y0, integrator=integrator)
 
 
-def values_for(keys):
-    return [0.5 + i for i, _k in enumerate(keys)]
+def values_for(keys, variant=0):
+    return [0.5 + i + 10.0 * variant for i, _k in enumerate(keys)]
 
 
-def run_cached(kind, keys, cache_dir, *, parallel=False, max_workers=2):
-    """One run of the real caching entry point. Returns {repr(key): comparable result}."""
+def run_cached(kind, keys, cache_dir, *, parallel=False, max_workers=2, variant=0, raw=None):
+    """One run of the real caching entry point. Returns {repr(key): comparable result}.
+
+    variant: which computation is cached (0/1: another function / another model under the same keys);
+    raw: optional dict that receives the returned objects themselves.
+    """
     import numpy as np
     import pandas as pd
     from mxlpy import scan
@@ -116,21 +125,25 @@ def run_cached(kind, keys, cache_dir, *, parallel=False, max_workers=2):
     cache = None if cache_dir is None else Cache(tmp_dir=Path(cache_dir))
     if kind in ("dict", "frame"):
         fn = _fn_dict if kind == "dict" else _fn_frame
-        res = parallelise(fn, list(zip(keys, values_for(keys), strict=True)), cache=cache, parallel=parallel, max_workers=max_workers)
+        res = parallelise(fn, list(zip(keys, values_for(keys, variant), strict=True)), cache=cache, parallel=parallel, max_workers=max_workers)
         if [k for k, _v in res] != list(keys):
             raise AssertionError(f"keys out of order: {[k for k, _ in res]}")
+        if raw is not None:
+            raw.update({repr(k): v for k, v in res})
         if kind == "dict":
             return {repr(k): v for k, v in res}
         return {repr(k): v.to_dict() for k, v in res}
     # scan.time_course over a parameter column: keys are the row labels of the scan table
     if isinstance(keys[0], tuple):
-        to_scan = pd.DataFrame({"k": [0.5 + i for i in range(len(keys))]}, index=pd.MultiIndex.from_tuples(keys))
+        to_scan = pd.DataFrame({"k": values_for(keys, variant)}, index=pd.MultiIndex.from_tuples(keys))
     else:
-        to_scan = pd.DataFrame({"k": [0.5 + i for i in range(len(keys))]}, index=list(keys))
+        to_scan = pd.DataFrame({"k": values_for(keys, variant)}, index=list(keys))
     sc = scan.time_course(_model(), to_scan=to_scan, time_points=np.array([0.0, 0.5, 1.0]), parallel=parallel, cache=cache, worker=_tc_worker)
     out = {}
     for k in keys:
         out[repr(k)] = sc.raw_results[k].variables.round(12).to_dict()
+        if raw is not None:
+            raw[repr(k)] = sc.raw_results[k]
     return out
 
 
@@ -181,7 +194,81 @@ def check(case):
         return check_product(case)
     if mode == "realkill":
         return check_realkill(case)
+    if mode == "history":
+        return check_history(case)
     raise HarnessError(mode)
+
+
+# ---- histories on one cache directory in one process ------------------------------------------------
+# reference model: the directory is a plain {key: value} map; a run returns the stored value of every key that
+# has one and computes + stores the others. (Keys identify results: a run of another computation under the same
+# keys is served from the map - that is the documented contract, and the reference does the same.)
+HIST_OPS = ["runA", "runB", "runA-subset", "wipe", "drop-first", "edit-returned"]
+
+
+def check_history(case):
+    kind, keys = case["kind"], [_key(k) for k in case["keys"]]
+    txt = f"kind={kind} keys={keys} history={case['hist']}"
+    base = fresh_dir(f"hist-{sha12(case)}")
+    cache_dir, calls_dir = base / "cache", base / "calls"
+    calls_dir.mkdir()
+    refs = {v: run_cached(kind, keys, None, variant=v) for v in (0, 1)}
+    disk = {}
+    last_raw = {}
+    os.environ["MC_C19_CALLS"] = str(calls_dir)
+    try:
+        for step, op in enumerate(case["hist"]):
+            if op == "wipe":
+                shutil.rmtree(cache_dir, ignore_errors=True)
+                disk.clear()
+            elif op == "drop-first":
+                from mxlpy.parallel import _pickle_name
+
+                f = cache_dir / _pickle_name(keys[0])
+                if f.exists():
+                    f.unlink()
+                disk.pop(repr(keys[0]), None)
+            elif op == "edit-returned":
+                # the caller post-processes what the last run returned, in place
+                for obj in last_raw.values():
+                    if isinstance(obj, dict):
+                        obj["value"] = -1.0
+                        obj["tag"] = "edited"
+                    elif hasattr(obj, "iloc"):
+                        obj.iloc[:, :] = -1.0
+                    else:  # a Simulation
+                        for f in obj.raw_variables:
+                            f.iloc[:, :] = -1.0
+                        obj.raw_args.clear() if isinstance(getattr(obj, "raw_args", None), list) else None
+            else:
+                variant = 1 if op == "runB" else 0
+                ks = keys[:-1] if op.endswith("subset") else keys
+                expect = {}
+                misses = 0
+                for k in ks:
+                    if repr(k) not in disk:
+                        disk[repr(k)] = refs[variant][repr(k)]
+                        misses += 1
+                    expect[repr(k)] = disk[repr(k)]
+                before = count_calls(calls_dir)
+                last_raw = {}
+                try:
+                    got = run_cached(kind, ks, cache_dir, variant=variant, raw=last_raw)
+                except Exception as exc:  # noqa: BLE001
+                    return outcome(False, "run-raised", symptom=f"history-run-raised:{type(exc).__name__}", nontrivial=True,
+                                   detail=f"step {step} ({op}) raised {type(exc).__name__}: {str(exc)[:150]} | {txt}")
+                calls = count_calls(calls_dir) - before
+                for k in expect:
+                    if not same(got.get(k), expect[k]):
+                        return outcome(False, "wrong-result", symptom="wrong-result-in-history", nontrivial=True,
+                                       detail=f"step {step} ({op}) key {k}: {str(got.get(k))[:100]} expected {str(expect[k])[:100]} | {txt}")
+                if calls != misses:
+                    return outcome(False, "recomputed", symptom="computations-differ-from-misses", nontrivial=True,
+                                   detail=f"step {step} ({op}) computed {calls} results for {misses} missing keys | {txt}")
+        return outcome(True, "history-transparent", nontrivial=len(case["hist"]) > 1)
+    finally:
+        os.environ.pop("MC_C19_CALLS", None)
+        shutil.rmtree(base, ignore_errors=True)
 
 
 def _reference(kind, keys):
@@ -391,6 +478,16 @@ def generate(tier):
             if tier == "quick" and sum(choice) % 4 != 0:
                 continue
             cases.append({"mode": "product", "kind": kind, "keys": keys, "choice": list(choice)})
+    # operation histories on one directory in one process; every history ends with a run (the observation)
+    runs = [o for o in HIST_OPS if o.startswith("run")]
+    depth = 4 if tier == "quick" else 5
+    for kind, ks in (("dict", "ints"), ("frame", "strs"), ("simulation", "ints")):
+        for n in range(1, depth + 1):
+            if kind == "simulation" and n > depth - 1:
+                continue
+            for pre in it.product(HIST_OPS, repeat=n - 1):
+                for last in runs:
+                    cases.append({"mode": "history", "kind": kind, "keys": KEYSETS[ks], "hist": [*pre, last]})
     # fault-model validation with a real SIGKILL
     ev = clean_events("dict", KEYSETS["ints"], tag="gen-kill")
     writes = [i for i, e in enumerate(ev) if e[0] == "write"]
@@ -410,7 +507,8 @@ def run(ctx):
     cases = generate(ctx.tier)
     n_crash = sum(1 for c in cases if c["mode"] == "crash")
     ctx.note(f"{n_crash} crash plans, {sum(1 for c in cases if c['mode'] == 'product')} parallel state products, "
-             f"{sum(1 for c in cases if c['mode'] == 'realkill')} real SIGKILL validations")
+             f"{sum(1 for c in cases if c['mode'] == 'realkill')} real SIGKILL validations, "
+             f"{sum(1 for c in cases if c['mode'] == 'history')} operation histories on one directory")
     seq = [c for c in cases if c["mode"] != "product"]
     par = [c for c in cases if c["mode"] == "product"]
     ctx.evaluate(seq, timeout=300)
